@@ -170,6 +170,29 @@ Qed.
 Theorem same_partition_order (t : tree) p : subseq (ancestors_on_same_partition C t p) (ancestors p).
 Proof. apply asp_go_subseq. Qed.
 
+(* the file-system root "/" (the empty component list) is the last ancestor of every path, so the
+   characterisation above quantifies over it too: ".../x" reaches "/x" whenever no other device lies
+   between the target directory and "/" *)
+Lemma ancestors_rev_root rp : exists nearer, ancestors_rev rp = nearer ++ [[]].
+Proof.
+  induction rp as [|n r [pre IH]].
+  - exists []. reflexivity.
+  - exists (rev (n :: r) :: pre). cbn [ancestors_rev]. rewrite IH. reflexivity.
+Qed.
+
+Theorem root_is_an_ancestor p : exists nearer, ancestors p = nearer ++ [[]].
+Proof. apply ancestors_rev_root. Qed.
+
+Theorem root_on_same_partition (t : tree) p d0 :
+  dev_of C t [] = Some d0 ->
+  (forall x, In x (ancestors p) -> dev_of C t x = None \/ dev_of C t x = Some d0) ->
+  In [] (ancestors_on_same_partition C t p).
+Proof.
+  intros HR HA. apply same_partition_spec. destruct (root_is_an_ancestor p) as [nearer E].
+  exists nearer, [], d0. split; [exact E|]. split; [exact HR|].
+  intros x Hx. apply HA. rewrite E. apply in_or_app. left. exact Hx.
+Qed.
+
 (* ".../x": x under every ancestor returned above, farthest first; unsafe joins are dropped;
    any other entry: the one file name, relative to the working directory *)
 Theorem tripledots_entry (t : tree) cwd target_dir p :
